@@ -1,8 +1,11 @@
 package main
 
 import (
+	"context"
 	"errors"
 	"fmt"
+	"io"
+	"io/fs"
 	"os"
 	"sync"
 	"time"
@@ -18,7 +21,7 @@ type recFs struct {
 	log    []string
 	name   string
 	faultK int    // index of the call to fail (-1: none)
-	kind   string // "error" | "short1" | "short0"
+	kind   string // "error" | "short1" | "short0" | one of wrappedFaultKinds (the error of the failing call wraps a sentinel)
 	n      int
 	// calls on one file (OpenFile of a path and Write / Close / Stat on the file it returned), per path: what one
 	// variable write did when several callers use the filesystem at once
@@ -29,6 +32,39 @@ type recFs struct {
 }
 
 var errInjected = errors.New("injected fault")
+
+// wrappedFaultKinds: the failing call returns an error that WRAPS one of the sentinel errors a dependency's own
+// dependencies produce (a layered / remote filesystem, a network-backed reader, a token behind a context): the call
+// failed - errors.Is finds the sentinel, == does not.  A wrapped io.EOF is not the end of the data.
+var wrappedFaultKinds = []string{"wraps-eof", "wraps-unexpected-eof", "wraps-closed", "wraps-canceled", "wraps-deadline"}
+
+func isWrappedFaultKind(kind string) bool {
+	for _, k := range wrappedFaultKinds {
+		if k == kind {
+			return true
+		}
+	}
+	return false
+}
+
+// injectedErr is the error of a failing dependency call for a fault kind
+func injectedErr(kind string) error {
+	switch kind {
+	case "wraps-eof":
+		return fmt.Errorf("injected fault: backend connection lost: %w", io.EOF)
+	case "wraps-unexpected-eof":
+		return fmt.Errorf("injected fault: backend reply truncated: %w", io.ErrUnexpectedEOF)
+	case "wraps-closed":
+		return &fs.PathError{Op: "injected fault", Path: "backend", Err: fs.ErrClosed}
+	case "wraps-canceled":
+		return fmt.Errorf("injected fault: backend request: %w", context.Canceled)
+	case "wraps-deadline":
+		return fmt.Errorf("injected fault: backend request: %w", context.DeadlineExceeded)
+	}
+	return errInjected
+}
+
+func (r *recFs) err() error { return injectedErr(r.kind) }
 
 func newRecFs(inner afero.Fs) *recFs { return &recFs{inner: inner, name: "MemMapFS", faultK: -1} }
 
@@ -73,7 +109,7 @@ func (r *recFs) Calls() int    { r.mu.Lock(); defer r.mu.Unlock(); return r.n }
 
 func (r *recFs) Create(name string) (afero.File, error) {
 	if r.step("create(" + name + ")") {
-		return nil, errInjected
+		return nil, r.err()
 	}
 	f, err := r.inner.Create(name)
 	return r.wrap(f, name), err
@@ -88,7 +124,7 @@ func (r *recFs) MkdirAll(path string, perm os.FileMode) error {
 }
 func (r *recFs) Open(name string) (afero.File, error) {
 	if r.step("open(" + name + ")") {
-		return nil, errInjected
+		return nil, r.err()
 	}
 	f, err := r.inner.Open(name)
 	if err != nil {
@@ -98,7 +134,7 @@ func (r *recFs) Open(name string) (afero.File, error) {
 }
 func (r *recFs) OpenFile(name string, flag int, perm os.FileMode) (afero.File, error) {
 	if r.stepAt(name, fmt.Sprintf("openfile(%s,%d,%d)", name, flag, perm)) {
-		return nil, errInjected
+		return nil, r.err()
 	}
 	f, err := r.inner.OpenFile(name, flag, perm)
 	if err != nil {
@@ -120,7 +156,7 @@ func (r *recFs) Rename(o, n string) error {
 }
 func (r *recFs) Stat(name string) (os.FileInfo, error) {
 	if r.step("fsstat(" + name + ")") {
-		return nil, errInjected
+		return nil, r.err()
 	}
 	return r.inner.Stat(name)
 }
@@ -165,7 +201,7 @@ func (f *recFile) Write(p []byte) (int, error) {
 		case "short0":
 			return 0, nil
 		}
-		return 0, errInjected
+		return 0, f.r.err()
 	}
 	return f.File.Write(p)
 }
@@ -180,20 +216,20 @@ func (f *recFile) Read(p []byte) (int, error) {
 		case "short0":
 			return 0, nil
 		}
-		return 0, errInjected
+		return 0, f.r.err()
 	}
 	return f.File.Read(p)
 }
 func (f *recFile) Close() error {
 	if f.r.stepAt(f.path, "close") {
 		f.File.Close()
-		return errInjected
+		return f.r.err()
 	}
 	return f.File.Close()
 }
 func (f *recFile) Stat() (os.FileInfo, error) {
 	if f.r.stepAt(f.path, "stat") {
-		return nil, errInjected
+		return nil, f.r.err()
 	}
 	return f.File.Stat()
 }
